@@ -155,7 +155,22 @@ func faults() []fault {
 		{rule: "R2:outer-ech-type-inner-with-keys", allowed: illegal, needKey: true, rawPost: func(rng *mrand.Rand, rec []byte) ([]byte, string) {
 			h, _ := tlswire.ParseClientHelloMessage(rec[5:])
 			h.Exts[h.Find(tlswire.ExtECH)] = tlswire.ECHInner()
-			return h.HelloRecord(0x0301), "type=1"
+			// the rule does not depend on what else the hello offers: also without TLS 1.3
+			param := "type=1"
+			switch rng.IntN(4) {
+			case 1:
+				replaceExt(h, tlswire.ExtSupportedVersions, nil)
+				param += ",no-supported_versions"
+			case 2:
+				e := tlswire.SupportedVersions(0x0303)
+				replaceExt(h, tlswire.ExtSupportedVersions, &e)
+				param += ",only-1.2"
+			case 3:
+				e := tlswire.SupportedVersions(0x0303, 0x0302)
+				replaceExt(h, tlswire.ExtSupportedVersions, &e)
+				param += ",1.2-1.1"
+			}
+			return h.HelloRecord(0x0301), param
 		}},
 		{rule: "R3:outer-ech-unknown-type", allowed: illegal, rawPost: func(rng *mrand.Rand, rec []byte) ([]byte, string) {
 			h, _ := tlswire.ParseClientHelloMessage(rec[5:])
@@ -202,10 +217,20 @@ func faults() []fault {
 			if p.n > 0 && i >= p.start && i < p.start+p.n {
 				return "", false // versions are compressed: the outer copy decides; skip this layout
 			}
-			switch rng.IntN(3) {
+			switch rng.IntN(4) {
 			case 0:
 				e := tlswire.SupportedVersions(0x0303)
 				return "only-1.2", replaceExt(p.inner, tlswire.ExtSupportedVersions, &e)
+			case 3:
+				// RFC 8701 reserved values are no protocol version at all: a list of GREASE
+				// entries and TLS 1.2 does not offer TLS 1.3
+				k := uint16(rng.IntN(16))<<4 | 0x0a
+				g := k<<8 | k
+				e := tlswire.SupportedVersions(g, 0x0303)
+				if rng.IntN(2) == 0 {
+					e = tlswire.SupportedVersions(0x0303, g, 0x0302)
+				}
+				return "grease+1.2", replaceExt(p.inner, tlswire.ExtSupportedVersions, &e)
 			case 1:
 				e := tlswire.SupportedVersions(0x0303, 0x0302, 0x0301)
 				return "1.2-1.0", replaceExt(p.inner, tlswire.ExtSupportedVersions, &e)
@@ -323,6 +348,30 @@ func faults() []fault {
 			return "", true
 		}},
 	}
+}
+
+// fragment re-frames a one-record hello as several handshake records: a first fragment of
+// 1..8 bytes (shorter than the handshake header included) or a PRNG-chosen split, the rest in 1..3 pieces.
+func fragment(rng *mrand.Rand, rec []byte) ([]byte, string) {
+	msg := rec[5:]
+	if len(msg) < 12 {
+		return rec, "whole"
+	}
+	first := []int{1, 2, 3, 4, 5, 8, 1 + rng.IntN(len(msg)-1), len(msg) - 1 - rng.IntN(5)}[rng.IntN(8)]
+	cuts := []int{first}
+	for k := rng.IntN(3); k > 0 && cuts[len(cuts)-1] < len(msg)-1; k-- {
+		last := cuts[len(cuts)-1]
+		cuts = append(cuts, last+1+rng.IntN(len(msg)-last-1))
+	}
+	var out []byte
+	prev := 0
+	for _, c := range append(cuts, len(msg)) {
+		if c > prev {
+			out = append(out, tlswire.Record(22, uint16(rec[1])<<8|uint16(rec[2]), msg[prev:c])...)
+			prev = c
+		}
+	}
+	return out, fmt.Sprintf("first=%d,records=%d", first, len(cuts)+1)
 }
 
 func typesOf(p *plan) []uint16 {
@@ -447,7 +496,12 @@ func TestCheck(t *testing.T) {
 		if !f.needKey && rng.IntN(2) == 0 {
 			ks = nil // rules that do not depend on holding a key are also tried without keys
 		}
-		c := map[string]any{"rule": f.rule, "param": param, "aead": aead, "run_start": p.start, "run_len": p.n, "pad": len(p.pad), "keys": len(ks)}
+		frag := "whole"
+		if i%3 == 2 {
+			rec, frag = fragment(rng, rec)
+			r.Count("faulty_hellos_sent_fragmented", 1)
+		}
+		c := map[string]any{"rule": f.rule, "param": param, "aead": aead, "run_start": p.start, "run_len": p.n, "pad": len(p.pad), "keys": len(ks), "framing": frag}
 		if judgeAbort(r, "single", i, f.rule, f.allowed, rec, ks, c) {
 			r.Count("aborted_correctly", 1)
 		}
@@ -528,7 +582,12 @@ func TestCheck(t *testing.T) {
 		if f.rawPost != nil {
 			rec, param = f.rawPost(rng, rec)
 		}
-		c := map[string]any{"rule": f.rule, "param": param, "phase": "retry", "second_record": mon.Hex(rec)}
+		frag := "whole"
+		if i%2 == 1 {
+			rec, frag = fragment(rng, rec)
+			r.Count("faulty_retried_hellos_sent_fragmented", 1)
+		}
+		c := map[string]any{"rule": f.rule, "param": param, "phase": "retry", "framing": frag, "second_record": mon.Hex(rec)}
 		r.Guard("retry", i, f.rule+":retry", c, func() {
 			wOff := len(flow.Tap.Written())
 			got, err := flow.Client(rec)
@@ -556,6 +615,8 @@ func TestCheck(t *testing.T) {
 		})
 	})
 	r.Floor("retry_aborted_correctly", int64(nr/3))
+	r.Floor("faulty_retried_hellos_sent_fragmented", int64(nr/4))
+	r.Floor("faulty_hellos_sent_fragmented", int64(n/4))
 
 	// R14: every truncation / inflation of every length-prefixed vector of the outer hello
 	nt := r.N(6, 50)
